@@ -627,9 +627,19 @@ func (e *env) checkUpdate(t *rmt.RegularMerkleTree, cur [][]byte, pos []int, rou
 	}
 	newData := make([][]byte, len(pos))
 	mod := append([][]byte{}, cur...)
+	// one update in three permutes the values of the updated leaves among themselves (each leaf
+	// receives what another updated leaf held before; the list stays free of repetitions)
+	permute := len(pos) >= 2 && (round+len(pos)+n)%3 == 0
+	if permute {
+		k.Count("updates_permuting", 1)
+	}
 	for j, p := range pos {
-		// distinct from every other leaf of the list: position and round are part of the data
-		newData[j] = append([]byte(fmt.Sprintf("upd-%d-%d-", round, p)), leafData(e.d.Salt^0x55aa, p, e.d.Fixed32)...)
+		if permute {
+			newData[j] = cp(cur[pos[(j+1)%len(pos)]])
+		} else {
+			// distinct from every other leaf of the list: position and round are part of the data
+			newData[j] = append([]byte(fmt.Sprintf("upd-%d-%d-", round, p)), leafData(e.d.Salt^0x55aa, p, e.d.Fixed32)...)
+		}
 		mod[p] = newData[j]
 	}
 	want := ref31.Root(mod)
@@ -1044,7 +1054,10 @@ func main() {
 					t2 := e.build(s2, func(int) bool { return false }, false)
 					if t2 != nil {
 						k.Eval(1)
-						e.checkUpdate(t2, e.data, pos, 0)
+						cur2 := e.checkUpdate(t2, e.data, pos, mask)
+						if bytes.Equal(t2.Root(), ref31.Root(cur2)) {
+							e.checkProof(t2, cur2, e.mkQuery(cur2, pos, "after-update"), false)
+						}
 					}
 				}
 			}
